@@ -333,6 +333,8 @@ impl InnerLocustDB {
     /// this function is never called concurrently.
     fn wal_flush(self: &Arc<InnerLocustDB>) {
         log::info!("Commencing WAL flush");
+        #[cfg(locustdb_verif)]
+        crate::verif::gate("wal_flush:begin", "");
         let mut tracer = SimpleTracer::default();
         let span_wal_flush = tracer.start_span("wal_flush");
 
@@ -364,6 +366,8 @@ impl InnerLocustDB {
             wal_condvar.notify_all();
         }
         tracer.end_span(span_freeze_buffers);
+        #[cfg(locustdb_verif)]
+        crate::verif::gate("wal_flush:frozen", "");
 
         // Iterate over all tables and create new partitions from frozen buffers.
         let span_batching = tracer.start_span("batching");
@@ -387,11 +391,15 @@ impl InnerLocustDB {
             }
         }
         tracer.end_span(span_batching);
+        #[cfg(locustdb_verif)]
+        crate::verif::gate("wal_flush:batched", "");
 
         // Persist new partitions
         if let Some(storage) = self.storage.as_ref() {
             storage.persist_partitions(new_partitions, &mut tracer);
         }
+        #[cfg(locustdb_verif)]
+        crate::verif::gate("wal_flush:partitions_persisted", "");
 
         // Write new segments from compactions to storage and apply compaction in-memory
         let span_compaction = tracer.start_span("compaction");
@@ -428,13 +436,21 @@ impl InnerLocustDB {
             tracer.push_tracer(compaction_tracer);
         }
         tracer.end_span(span_compaction);
+        #[cfg(locustdb_verif)]
+        crate::verif::gate("wal_flush:compacted", "");
 
         // Update metastore and clean up orphaned partitions and WAL segments
         if let Some(storage) = self.storage.as_ref() {
             storage.persist_metastore(unflushed_wal_ids.end, &mut tracer);
+            #[cfg(locustdb_verif)]
+            crate::verif::gate("wal_flush:metastore_persisted", "");
             storage.delete_orphaned_partitions(partitions_to_delete, &mut tracer);
+            #[cfg(locustdb_verif)]
+            crate::verif::gate("wal_flush:orphans_deleted", "");
             storage.delete_wal_segments(unflushed_wal_ids, &mut tracer);
         }
+        #[cfg(locustdb_verif)]
+        crate::verif::gate("wal_flush:end", "");
 
         tracer.end_span(span_wal_flush);
 
@@ -518,6 +534,8 @@ impl InnerLocustDB {
         let mut maybe_compaction = None;
 
         if let Some(partition) = table.batch() {
+            #[cfg(locustdb_verif)]
+            crate::verif::gate("flush_table:batched", table.name());
             let columns: Vec<_> = partition
                 .clone_column_handles()
                 .into_iter()
@@ -537,6 +555,8 @@ impl InnerLocustDB {
                 subpartitions_by_last_column,
             };
             new_partition = Some((partition_metadata, subpartitions));
+            #[cfg(locustdb_verif)]
+            crate::verif::gate("flush_table:subpartitioned", table.name());
         }
 
         if let Some((range, parts)) = table.plan_compaction(self.opts.partition_combine_factor) {
@@ -558,6 +578,8 @@ impl InnerLocustDB {
         // - run query for each column, construct Column
         // - create subpartitions
         let mut tracer = SimpleTracer::default();
+        #[cfg(locustdb_verif)]
+        crate::verif::gate("compact:begin", table.name());
 
         let span_load_column_names = tracer.start_span("load_column_names");
         if !table.columns_names_loaded() {
@@ -662,7 +684,11 @@ impl InnerLocustDB {
 
         // replace old partitions with new partition
         let span_compact_partitions = tracer.start_span("compact_partitions");
+        #[cfg(locustdb_verif)]
+        crate::verif::gate("compact:before_swap", table.name());
         table.compact(id, range.start, columns, parts);
+        #[cfg(locustdb_verif)]
+        crate::verif::gate("compact:after_swap", table.name());
         tracer.end_span(span_compact_partitions);
 
         // write new subpartitions to disk and update in-memory metastore
@@ -679,6 +705,8 @@ impl InnerLocustDB {
             (table.name().to_string(), to_delete)
         });
         tracer.end_span(span_prepare_compact);
+        #[cfg(locustdb_verif)]
+        crate::verif::gate("compact:catalogue_updated", table.name());
 
         (to_delete, tracer)
     }
